@@ -19,8 +19,8 @@ EXTENDS Pipeline, Json, IOUtils
 
 Cases == JsonDeserialize(IOEnv.CASES)
 
-VARIABLES cid, pc, l, t, Vs, verdict, exact, nrows, nskip
-vars == <<cid, pc, l, t, Vs, verdict, exact, nrows, nskip>>
+VARIABLES cid, pc, l, t, Vs, verdict, exact, nrows, nskip, diag
+vars == <<cid, pc, l, t, Vs, verdict, exact, nrows, nskip, diag>>
 
 C      == Cases[cid]
 M      == C.mdl
@@ -34,7 +34,7 @@ Fail(clause, detail) == <<"FAIL", clause, detail>>
 Init ==
   /\ cid \in 1..Len(Cases)
   /\ pc = "scope" /\ l = 1 /\ t = 0 /\ Vs = <<>> /\ verdict = <<"run">> /\ exact = TRUE
-  /\ nrows = 0 /\ nskip = 0
+  /\ nrows = 0 /\ nskip = 0 /\ diag = <<>>
 
 (* ------------------------------------------------------------ scope *)
 TrScope ==
@@ -42,7 +42,7 @@ TrScope ==
   /\ LET why == StaticScope(M)
      IN IF why # "" THEN verdict' = <<"SKIP", why>> /\ pc' = "done" /\ t' = 0
         ELSE verdict' = verdict /\ pc' = (IF NeedV THEN "spec" ELSE "events") /\ t' = M.T
-  /\ UNCHANGED <<cid, l, Vs, exact, nrows, nskip>>
+  /\ UNCHANGED <<cid, l, Vs, exact, nrows, nskip, diag>>
 
 (* ------------------------------------------------------------ the specification's own solution *)
 TrSpecSolve ==
@@ -52,7 +52,7 @@ TrSpecSolve ==
   /\ LET why == ScopeOfV(M, Vs'[1])
      IN IF why # "" THEN verdict' = <<"SKIP", why>> /\ pc' = "done"
         ELSE verdict' = verdict /\ pc' = (IF t = 1 THEN "events" ELSE "spec")
-  /\ UNCHANGED <<cid, l, exact, nrows, nskip>>
+  /\ UNCHANGED <<cid, l, exact, nrows, nskip, diag>>
 
 (* ------------------------------------------------------------ template (C07) *)
 TemplateFail(ev) ==
@@ -67,9 +67,25 @@ TemplateFail(ev) ==
         THEN Fail("template-shape", ToString(<<ev.shocks, tm.shocks>>))
      ELSE IF ~ev.allnan THEN Fail("template-leaves", "a leaf of the template is not NaN")
      ELSE <<"run">>
+(***************************************************************************)
+(* Diagnostic (never a verdict): the tables lcm derives from the model     *)
+(* (input_processing.util: canonical variable order, restricted and        *)
+(* auxiliary variables, kinds of functions) against module Mdl.  These are *)
+(* internal structures a refactoring may change; a difference is reported  *)
+(* in the evidence as the first place to look, not as a violation.         *)
+(***************************************************************************)
+KindOf(f) == IF f.kind = "filter" THEN "filter" ELSE IF f.kind = "constraint" THEN "constraint"
+             ELSE IF f.kind \in {"next", "stoch"} THEN "next" ELSE "other"
+ClassifyDiag(ev) ==
+  (IF ev.canon # [i \in DOMAIN Canon(M) |-> Canon(M)[i].name] THEN <<"canonical-order">> ELSE <<>>)
+  \o (IF ToSet(ev.sparse) # SparseNames(M) THEN <<"restricted-variables">> ELSE <<>>)
+  \o (IF ToSet(ev.aux) # AuxStates(M) THEN <<"auxiliary-states">> ELSE <<>>)
+  \o (IF ToSet(ev.stochastic) # StochNames(M) THEN <<"stochastic-states">> ELSE <<>>)
+  \o (IF \E i \in DOMAIN M.funcs : ev.fkinds[M.funcs[i].name] # KindOf(M.funcs[i]) THEN <<"function-kinds">> ELSE <<>>)
 TrTemplate ==
   /\ Running /\ pc = "events" /\ l <= Len(C.events) /\ Ev.e = "template"
   /\ verdict' = (IF Grp("template") THEN TemplateFail(Ev) ELSE verdict)
+  /\ diag' = diag \o ClassifyDiag(Ev)
   /\ l' = l + 1
   /\ UNCHANGED <<cid, pc, t, Vs, exact, nrows, nskip>>
 
@@ -97,7 +113,7 @@ TrSolve ==
           /\ exact' = (exact /\ verdict'[1] = "run" /\ SolveExact(Ev))
      ELSE UNCHANGED <<verdict, exact>>
   /\ l' = l + 1
-  /\ UNCHANGED <<cid, pc, t, Vs, nrows, nskip>>
+  /\ UNCHANGED <<cid, pc, t, Vs, nrows, nskip, diag>>
 
 (* ------------------------------------------------------------ simulate: the frame (C13) *)
 SimN(ev) == ev.N
@@ -118,7 +134,7 @@ TrSimFrame ==
   /\ Running /\ pc = "events" /\ l <= Len(C.events) /\ Ev.e = "simulate"
   /\ verdict' = FrameFail(Ev)
   /\ pc' = "sim" /\ t' = 0
-  /\ UNCHANGED <<cid, l, Vs, exact, nrows, nskip>>
+  /\ UNCHANGED <<cid, l, Vs, exact, nrows, nskip, diag>>
 
 (* ------------------------------------------------------------ simulate: one period *)
 RowAt(ev, p, i) == ev.rows[p * ev.N + i]
@@ -165,7 +181,7 @@ TrSimPeriod ==
         /\ nskip' = nskip + Cardinality(skip)
   /\ t' = t + 1
   /\ IF t = M.T - 1 THEN pc' = "events" /\ l' = l + 1 ELSE UNCHANGED <<pc, l>>
-  /\ UNCHANGED <<cid, Vs, exact>>
+  /\ UNCHANGED <<cid, Vs, exact, diag>>
 
 (* ------------------------------------------------------------ relations between recorded runs *)
 (***************************************************************************)
@@ -206,7 +222,7 @@ TrRel ==
   /\ Running /\ pc = "events" /\ l <= Len(C.events) /\ Ev.e \in {"rel-solve", "rel-sim"}
   /\ verdict' = (IF Ev.e = "rel-solve" THEN RelSolveFail(Ev) ELSE RelSimFail(Ev))
   /\ l' = l + 1
-  /\ UNCHANGED <<cid, pc, t, Vs, exact, nrows, nskip>>
+  /\ UNCHANGED <<cid, pc, t, Vs, exact, nrows, nskip, diag>>
 
 (* ------------------------------------------------------------ exceptions *)
 \* an exception raised by lcm on an accepted, in-scope model: the call did not deliver
@@ -214,17 +230,17 @@ TrError ==
   /\ Running /\ pc = "events" /\ l <= Len(C.events) /\ Ev.e = "error"
   /\ verdict' = Fail("crash", ToString(<<Ev.op, Ev.cls, Ev.msg>>))
   /\ l' = l + 1
-  /\ UNCHANGED <<cid, pc, t, Vs, exact, nrows, nskip>>
+  /\ UNCHANGED <<cid, pc, t, Vs, exact, nrows, nskip, diag>>
 
 (* ------------------------------------------------------------ end of trace *)
 TrDone ==
   /\ Running /\ pc = "events" /\ l > Len(C.events)
   /\ verdict' = <<"ok">> /\ pc' = "done"
-  /\ UNCHANGED <<cid, l, t, Vs, exact, nrows, nskip>>
+  /\ UNCHANGED <<cid, l, t, Vs, exact, nrows, nskip, diag>>
 
 Next == TrScope \/ TrSpecSolve \/ TrError \/ TrTemplate \/ TrSolve \/ TrSimFrame \/ TrSimPeriod \/ TrRel \/ TrDone
 Spec == Init /\ [][Next]_vars
 
 \* one line per case when its verdict is reached
-Report == (verdict[1] # "run") => PrintT(<<"VERDICT", ToJson([cid |-> C.cid, v |-> verdict, exact |-> exact, nrows |-> nrows, nskip |-> nskip])>>)
+Report == (verdict[1] # "run") => PrintT(<<"VERDICT", ToJson([cid |-> C.cid, v |-> verdict, exact |-> exact, nrows |-> nrows, nskip |-> nskip, diag |-> diag])>>)
 =============================================================================
